@@ -66,12 +66,15 @@ var c17Hand = []string{
 	"MUSTFAIL{% extends 'base' %}{% set q %}{{ 1 % 0 }}{% endset %}{% block bb %}x{% endblock %}",
 	"MUSTFAIL{% extends 'base' %}{% use 'lay' with nosuch as b %}{% block bb %}x{% endblock %}",
 	"MUSTFAIL{% extends 'nobase' %}{% block bb %}x{% endblock %}",
+	// the expression that names a template fails: nothing is loaded in its place (a template called "" exists)
+	"MUSTFAIL{% from 1 % 0 import lm %}x{{ lm(1) }}", "MUSTFAIL{% import nofunc() as L %}x", "MUSTFAIL{% use 1 % 0 %}x", "MUSTFAIL{% use nofunc() with eb as q %}x{{ block('q') }}", "MUSTFAIL{% include 1 % 0 %}x", "MUSTFAIL{% embed nofunc() %}{% endembed %}x",
+	"MUSTFAIL{% extends 1 % 0 %}{% block bb %}x{% endblock %}", "MUSTFAIL{% include [1 % 0] %}x", "MUSTFAIL{% include 'lib' with 1 % 0 %}x", "MUSTFAIL{% from (1 matches '(') import lm %}x", "MUSTFAIL{{ block(1 % 0) }}",
 	// a block that is not there cannot be imported, whatever it is to be called - also under its own name
 	"MUSTFAIL{% use 'lay' with nosuch as nosuch %}x", "MUSTFAIL{% use 'lay' with eb as eb, nosuch as nosuch %}x{{ block('eb') }}", "MUSTFAIL{% extends 'base' %}{% use 'lay' with nosuch as nosuch %}{% block bb %}x{% endblock %}", "MUSTFAIL{% use 'lay' with nosuch as eb %}x",
 	// what fails inside a template that is there is a failure, however leniently the template was asked for (forms
 	// of other Twig dialects included: if they are not understood that is an error as well)
 	"MUSTFAIL{% include 'broken-inside' %}", "MUSTFAIL{% include 'broken-inside' ignore missing %}", "MUSTFAIL{% include 'broken-inside' ignore missing with {'a': 1} only %}", "MUSTFAIL{% embed 'broken-inside' ignore missing %}{% endembed %}",
-	"MUSTFAIL{% include ['nolib', 'broken-inside'] %}", "MUSTFAIL{% include ['nolib', 'nolib2'] %}", "MUSTFAIL{% include 'nolib' ignore missing %}{{ nofunc() }}", "MUSTFAIL{{ include('broken-inside') }}", "MUSTFAIL{{ include('nolib', ignore_missing = true) }}{{ nofunc() }}",
+	"MUSTFAIL{% include 'nolib' ignore missing %}{{ nofunc() }}", "MUSTFAIL{{ include('broken-inside') }}", "MUSTFAIL{{ include('nolib', ignore_missing = true) }}{{ nofunc() }}",
 	"MUSTFAIL{% include 'broken-extends' ignore missing %}", "MUSTFAIL{% include 'broken-import' ignore missing %}",
 	"MUSTFAIL{% from 'lib' import nosuch %}never called",
 	"MUSTFAIL{% import 'nolib' as L %}never used",
@@ -89,6 +92,8 @@ func (p *c17) N() int { return len(c17Hand) + 2 + p.nProg }
 func c17Aux() map[string]string {
 	return map[string]string{
 		"lib": "{% macro lm(a) %}lm:{{ a }}{% endmacro %}",
+		// a template called "" - what a name expression that fails would name, if its failure were not noticed
+		"": "EMPTY-NAME{% macro lm(a) %}elm{% endmacro %}{% block eb %}eeb{% endblock %}{% block bb %}ebb{% endblock %}",
 		// templates that exist and fail half-way because something they need does not
 		"broken-inside":  "A{% include 'nolib' %}B",
 		"broken-extends": "{% extends 'nobase' %}{% block bb %}x{% endblock %}",
